@@ -145,6 +145,27 @@ def gen_shift(rng, i):
             kw["noise_size"] = rng.choice([0.5, 1, 1.5])
         if rng.random() < 0.3:
             kw["smoothing_size"] = [d + rng.choice([0, 2, 4]) for d in kw["diameter"]]
+    if not pre and rng.random() < 0.25:
+        # a lattice of identical point-symmetric spots whose pitch along one axis is EXACTLY the
+        # separation: the refined centres are exactly `separation` apart, which must be kept (the
+        # criterion is "closer than"), at every offset of the content in the canvas
+        sep = kw.get("separation") or [d + 1 for d in kw["diameter"]]
+        arr = np.zeros(shape, dtype=np.int64)
+        ax = rng.randrange(nd)
+        pitch = [int(sep[a]) if a == ax else int(sep[a]) + rng.randint(2, 4) for a in range(nd)]
+        r0 = [kw["diameter"][a] // 2 + 1 for a in range(nd)]
+        v = rng.choice([40, 90, 200])
+        grids = [list(range(r0[a], shape[a] - r0[a], pitch[a])) for a in range(nd)]
+        import itertools
+        for c in itertools.product(*grids):
+            arr[c] = v
+            for a in range(nd):               # a small symmetric cross: the centroid is the pixel
+                for dlt in (-1, 1):
+                    cc = list(c); cc[a] += dlt
+                    if 0 <= cc[a] < shape[a]:
+                        arr[tuple(cc)] = v // 2
+        if all(len(g) >= 1 for g in grids) and len(grids[ax]) >= 2:
+            kind, px = "lattice", [int(x) for x in arr.ravel()]
     pad = needed_pad(kw, nd)
     extra = [rng.randint(1, 8) for _ in range(nd)]
     canvas = [s + 2 * p + e for s, p, e in zip(shape, pad, extra)]
